@@ -209,16 +209,16 @@ theorem router_host_arp (fuel : Nat) (X : St) (c : List NodeCfg) (h r o i k0 : N
 
 /-! ### the router holds a frame for a destination it has to ask for first -/
 
-/-- A plain router receives, on interface `ia`, a unicast ICMP frame from a sender it already knows, for the on-link host B
+/-- A plain router receives, on interface `ia`, a unicast frame its rule list permits (ICMP, or a service it has a rule for) from a sender it already knows, for the on-link host B
 (directly cabled to interface `ib`) that it has NOT cached: inside `process_frame` it asks for B, B learns the router and
 answers, the router learns B — and then forwards the frame it was holding, TTL − 2, out of `ib` to B's MAC. -/
 theorem router_forward_cold (fuel : Nat) (X : St) (c : List NodeCfg) (a r b ia ib : Nat) (ndA ndR ndB : Node)
-    (ifB ra rb ownB : Iface) (f : Frame) (es : ArpEntry) (ident : Nat)
+    (ifB ra rb ownB : Iface) (f : Frame) (es : ArpEntry)
     (S : Snap X c a b r ndA ndB ndR) (hab : a ≠ b) (hbr : b ≠ r) (har : a ≠ r)
     (hkR : ndR.kind = .router) (honR : ndR.on = true) (hfwR : ndR.fw = none)
     (hra : ndR.ifaces[ia]? = some ra) (hrb : ndR.ifaces[ib]? = some rb) (hrben : rb.enabled = true) (hrbpeer : rb.peer = some (b, 0))
     (hownB : ifaceWithIp ndR.ifaces rb.ip = some ownB) (hmacRb : rb.mac ≠ bcastMac)
-    (hm : f.dstMac = ra.mac) (hnbA : ra.mac ≠ bcastMac) (hd : f.dstIp = ifB.ip) (hpl : f.pl = .echoReq ident ∨ f.pl = .echoRep ident)
+    (hm : f.dstMac = ra.mac) (hnbA : ra.mac ≠ bcastMac) (hd : f.dstIp = ifB.ip) (hpl : aclDenies ndR ia f.pl = false)
     (hes : ndR.arpGet f.srcIp = some es) (httl : 3 ≤ f.ttl)
     (hnotown : ifaceWithIp ndR.ifaces ifB.ip = none) (hcoldR : ndR.arpGet ifB.ip = none)
     (hfi : firstIn ndR.ifaces ifB.ip 0 = some ib) (hfe : firstEnabledIn ndR.ifaces ifB.ip 0 = some ib) (hinR : rb.inNet ifB.ip = true)
@@ -238,10 +238,7 @@ theorem router_forward_cold (fuel : Nat) (X : St) (c : List NodeCfg) (a r b ia i
   have hi1 : X1.iface? r ia = some ra := by rw [S.iface S1]; exact hi
   have s1 : ifaceRecv (fuel + 14) X r ia f = routerRecv (fuel + 12 + 1) X1 r ia f.dec := by
     simp only [ifaceRecv, S.ns, hi, h1, if_false, hkR, hacc, if_true, hX1]
-  have hperm : aclDenies ndR ia f.dec.pl = false := by
-    apply plain_router_permits ndR ia _ hfwR
-    show f.pl ≠ .dataReq ∧ f.pl ≠ .dataRep ∧ appDenied ndR.serves f.pl = false
-    rcases hpl with h | h <;> (rw [h]; exact ⟨by simp, by simp, rfl⟩)
+  have hperm : aclDenies ndR ia f.dec.pl = false := hpl
   have htr : transitOk ndR ia f.dec.pl f.dec.dstIp = true := by
     unfold transitOk; rw [hfwR]; simp [honR, hperm]
   have hlearn : X1.modNode r (fun nd => nd.addArp f.dec.srcIp f.dec.srcMac ia) = X1 := by
@@ -411,9 +408,9 @@ theorem C08_permitted_exchange_succeeds_cold_routed (fuel : Nat) (st : St) (a r 
   have Es : E.srcMac = ifA.mac ∧ E.dstMac = ra.mac ∧ E.srcIp = ifA.ip ∧ E.dstIp = ifB.ip ∧ E.ttl = 64 ∧ E.pl = .echoReq st.nextId := by
     rw [← hE]; exact ⟨rfl, rfl, rfl, rfl, rfl, rfl⟩
   obtain ⟨e1, e2, e3, e4, e5, e6⟩ := Es
-  obtain ⟨Y2, hfwd, SY2⟩ := router_forward_cold fuel X2 (cfgOf st) a r b ia ib A1 R1 ndB ifB ra rb ownB E _ st.nextId SX2 h.ab h.br h.ar
+  obtain ⟨Y2, hfwd, SY2⟩ := router_forward_cold fuel X2 (cfgOf st) a r b ia ib A1 R1 ndB ifB ra rb ownB E _ SX2 h.ab h.br h.ar
     R1kind R1on R1fw (by rw [R1ifs]; exact h.portA) (by rw [R1ifs]; exact h.portB) h.rbEn h.rbPeer (by rw [R1ifs]; exact h.ownB) h.macRb
-    e2 h.macRa e4 (Or.inl e6) (by rw [e3]; exact hgR1) (by rw [e5]; decide) (by rw [R1ifs]; exact h.notOwnB) R1coldB
+    e2 h.macRa e4 (by rw [e6]; exact plain_router_permits R1 ia _ R1fw ⟨by simp, by simp, rfl⟩) (by rw [e3]; exact hgR1) (by rw [e5]; decide) (by rw [R1ifs]; exact h.notOwnB) R1coldB
     (by rw [R1ifs]; exact h.fiB) (by rw [R1ifs]; exact h.feB) h.rbB h.bNotNet h.bNotBc h.ifsB h.enB h.peerB h.kindB h.onB h.netBg
   have hf14 : fuel + 13 + 1 = fuel + 14 := rfl
   rw [hf14, hfwd] at hsend
